@@ -62,9 +62,11 @@ BUILTIN_EXC_PARENTS = {
     'IndexError': 'LookupError', 'LookupError': 'Exception', 'TypeError': 'Exception', 'struct.error': 'Exception',
     'io.UnsupportedOperation': 'OSError', 'FileNotFoundError': 'OSError', 'AssertionError': 'Exception',
     'asyncio.TimeoutError': 'Exception', 'asyncio.QueueEmpty': 'Exception', 'StopIteration': 'Exception',
-    'AttributeError': 'Exception', 'ImportError': 'Exception', 'UnicodeDecodeError': 'ValueError',
+    'AttributeError': 'Exception', 'ImportError': 'Exception', 'UnicodeDecodeError': 'ValueError', 'OverflowError': 'ArithmeticError',
+    'ArithmeticError': 'Exception', 'ZeroDivisionError': 'ArithmeticError',
     'AnyError': 'Exception',            # "any exception" raised by an abstract callee
-    'usb1.USBError': 'Exception', 'ConnectionError': 'OSError', 'socket.timeout': 'OSError',
+    'usb1.USBError': 'Exception', 'usb1.USBErrorNotFound': 'usb1.USBError', 'usb1.USBErrorTimeout': 'usb1.USBError',
+    'ConnectionError': 'OSError', 'socket.timeout': 'OSError',
 }
 
 
@@ -1088,16 +1090,18 @@ class Executor(object):
             self.assume(self.yield_index.term >= 0)
         # locals
         for n in sorted(names):
-            if n in self.env:
+            if n in self.contract.locals_types:
+                self.env[n] = self.fresh(self.contract.locals_types[n], n)
+            elif n in self.env:
                 v = self.env[n]
                 if isinstance(v, (VObj, VLock, VClass, VFunc, VModule)):
                     continue
+                if isinstance(v, VNone):
+                    raise Unsupported('local %r is None at the head of a loop that assigns it: declare its type under `locals` in the contract' % n)
                 try:
                     self.env[n] = self.refresh_like(v, n)
                 except Unsupported:
                     del self.env[n]
-            elif n in self.contract.locals_types:
-                self.env[n] = self.fresh(self.contract.locals_types[n], n)
         # an inlined generator: the consumer's loop body runs inside this loop, in the consumer's environment
         for hook, cst, cenv in getattr(self, 'yield_hooks', [])[-1:]:
             names2, attrs2, calls2 = self.collect_writes(cst.body + [cst.target])
@@ -1119,6 +1123,8 @@ class Executor(object):
                         v = cenv[n]
                         if isinstance(v, (VObj, VLock, VClass, VFunc, VModule)):
                             continue
+                        if isinstance(v, VNone):
+                            raise Unsupported('local %r is None at the head of a loop that assigns it: declare its type under `locals`' % n)
                         try:
                             cenv[n] = self.refresh_like(v, n)
                         except Unsupported:
@@ -1557,7 +1563,16 @@ class Executor(object):
 
     def ex_BoolOp(self, node):
         if self.mode == 'spec':
-            vals = [truth(self.eval(v)) for v in node.values]
+            vals = []
+            for v in node.values:
+                t = truth(self.eval(v))
+                ts = z3.simplify(t)
+                # a concretely decisive operand ends the evaluation: later operands may not even be well-typed (val(None) // 2)
+                if isinstance(node.op, ast.And) and z3.is_false(ts):
+                    return VBool(False)
+                if isinstance(node.op, ast.Or) and z3.is_true(ts):
+                    return VBool(True)
+                vals.append(t)
             return VBool(z3.And(*vals) if isinstance(node.op, ast.And) else z3.Or(*vals))
         # code mode: Python value semantics with short circuit
         cur = self.eval(node.values[0])
@@ -1693,6 +1708,10 @@ class Executor(object):
                         if not self.branch(y > 0):
                             raise Unsupported('division by a possibly negative number at %s' % self.where())
                     # z3 div/mod coincide with Python's floor semantics for positive divisors
+                if yc is None:
+                    # symbolic divisor: kept abstract (uninterpreted, with its range) so that no non-linear term reaches the solver
+                    fn = SF.PYDIV if isinstance(op, ast.FloorDiv) else SF.PYMOD
+                    return VInt(fn(x, y))
                 return VInt(x / y) if isinstance(op, ast.FloorDiv) else VInt(x % y)
             if isinstance(op, ast.Pow):
                 xc, yc = VInt(x).concrete(), VInt(y).concrete()
@@ -1715,6 +1734,11 @@ class Executor(object):
                     if qc is not None and qc >= 0 and (qc + 1) & qc == 0:
                         # x & (2^k - 1) == x mod 2^k for every Python int x (two's complement of unbounded ints)
                         return VInt(p % (qc + 1))
+                for p, q in ((x, y), (y, x)):
+                    qc = VInt(q).concrete()
+                    if qc is not None and qc > 0 and qc & (qc - 1) == 0:
+                        # x & 2^k == ((x div 2^k) mod 2) * 2^k for every Python int x (floor division = arithmetic shift)
+                        return VInt(((p / qc) % 2) * qc)
                 raise Unsupported('bitwise and with a non-mask at %s' % self.where())
             if isinstance(op, ast.BitXor):
                 for p, q in ((x, y), (y, x)):
@@ -2056,6 +2080,14 @@ class Executor(object):
                 clauses = rest
             holder = {'result': result}
             fresh_locs = {(id(o), f) for o, f in locs}
+            # the fields of a freshly created result object are fresh too
+            stack = [result] if isinstance(result, VObj) else []
+            while stack:
+                o = stack.pop()
+                for f, fv in o.fields.items():
+                    fresh_locs.add((id(o), f))
+                    if isinstance(fv, VObj):
+                        stack.append(fv)
             done_locs = set()
             state = {'result_seen': False}
             for c in clauses:
@@ -2149,6 +2181,8 @@ class Executor(object):
             return v
         if rtype in ('int',) and isinstance(v, VInt):
             return v
+        if rtype.startswith('opaque') and isinstance(v, VOpaque) and v.term is not None:
+            return VOpaque(rtype.split(':', 1)[1] if ':' in rtype else v.tag, v.term)
         return None
 
     def eval_clause_value_tree(self, tree, scope):
